@@ -185,6 +185,50 @@ func fileName(name string) string {
 
 // Solve discharges one obligation, racing the configured solvers.
 func (o *Obligation) Solve(opts SolveOpts) {
+	if !o.triedGround && !o.Canary && o.vc.Mode != "opaque" {
+		// real-arithmetic VCs: try the quantifier-free relaxation first
+		o.triedGround = true
+		os.MkdirAll(opts.OutDir, 0o755)
+		gf := filepath.Join(opts.OutDir, fileName(o.Name)+".ground.smt2")
+		gt := opts.TimeoutS
+		if gt > 15 {
+			gt = 15
+		}
+		gf0 := filepath.Join(opts.OutDir, fileName(o.Name)+".reals.smt2")
+		os.WriteFile(gf, []byte(o.SMTGround(gt*1000, opts.Seed, false)), 0o644)
+		os.WriteFile(gf0, []byte(o.SMTGround(gt*1000, opts.Seed, true)), 0o644)
+		start := time.Now()
+		ch := make(chan solverResult, 4)
+		ctx, cancel := context.WithCancel(context.Background())
+		for _, file := range []string{gf0, gf} {
+			for _, sc := range []SolverCfg{Solvers[0], Solvers[2]} {
+				sc, file := sc, file
+				go func() { ch <- runSolver(ctx, sc, file, gt, opts.Seed) }()
+			}
+		}
+		var got *solverResult
+		for i := 0; i < 4; i++ {
+			r := <-ch
+			if r.status == "unsat" {
+				got = &r
+				break
+			}
+		}
+		cancel()
+		if !opts.Keep {
+			os.Remove(gf0)
+		}
+		if got != nil {
+			o.Status, o.Solver, o.TimeS, o.SMTFile = "unsat", got.solver+"/ground", time.Since(start).Seconds(), gf
+			if !opts.Keep {
+				os.Remove(gf)
+			}
+			return
+		}
+		if !opts.Keep {
+			os.Remove(gf)
+		}
+	}
 	if !o.triedPruned && !o.Canary && len(o.vc.factKeys) > 0 {
 		// first attempt: axioms irrelevant to the goal are left out (sound: fewer hypotheses)
 		o.triedPruned = true
